@@ -45,6 +45,7 @@ def strategy_(draw, tier):
             q = draw(st.lists(st.sampled_from(ids), min_size=1, max_size=5))
         queries.append(q)
     case["queries"] = queries
+    case["via"] = draw(st.sampled_from(["api", "api", "cli", "cli_stdout"]))
     return case
 
 
@@ -54,7 +55,8 @@ def strategy(tier):
 
 def check_selection(what, res, out, want_lines):
     if not want_lines:
-        core.check(res[0] == "cle" and "No alignments found" in res[1],
+        # through the command line the anticipated error is logged and turned into exit status 1
+        core.check((res[0] == "cle" and "No alignments found" in res[1]) or res == ("exit", 1),
                    "%s: nothing matches, expected the 'No alignments found' error, got %s", what, res)
         core.check(not out, "%s: nothing matches but output was written: %r", what, out)
         return
@@ -70,13 +72,15 @@ def run_case(case):
     fmt = "unstable" if case["stable"] else "stable"
     classes = set()
     nontrivial = False
+    via = case.get("via", "api")
+    classes.add("via:" + via)
     with core.workdir() as d:
         gaf_path, table = idx.materialize(d, case)
         gfa_path = d + "/g.gfa"
-        r = idx.build_index(gaf_path, gfa_path, d + "/in.gvi")
+        r = idx.build_index(gaf_path, gfa_path, d + "/in.gvi", via="api" if via == "api" else "cli")
         core.check(r[0] == "ok", "index failed: %s", r)
         # whole file, no format
-        res, out = idx.run_view(d, gaf_path, gfa_path, d + "/whole.txt")
+        res, out = idx.run_view(d, gaf_path, gfa_path, d + "/whole.txt", via=via)
         core.check(res[0] == "ok" and out == lines, "view without selection and format does not reproduce the file: %s %r", res, out)
         # whole-file conversion (reference for the metamorphic relation)
         res, whole = idx.run_view(d, gaf_path, gfa_path, d + "/conv.txt", fmt=fmt)
@@ -85,9 +89,9 @@ def run_case(case):
         for qi, q in enumerate(case["queries"]):
             qs = set(q)
             ords = [i for i, t in enumerate(trav) if t & qs]
-            res, out = idx.run_view(d, gaf_path, gfa_path, d + "/sel%d.txt" % qi, nodes=q, index=d + "/in.gvi")
+            res, out = idx.run_view(d, gaf_path, gfa_path, d + "/sel%d.txt" % qi, nodes=q, index=d + "/in.gvi", via=via)
             check_selection("view -n %s" % " -n ".join(q), res, out, [idx.expected_plain(lines[i]) for i in ords])
-            res, out = idx.run_view(d, gaf_path, gfa_path, d + "/self%d.txt" % qi, nodes=q, index=d + "/in.gvi", fmt=fmt)
+            res, out = idx.run_view(d, gaf_path, gfa_path, d + "/self%d.txt" % qi, nodes=q, index=d + "/in.gvi", fmt=fmt, via=via)
             check_selection("view --format %s -n %s" % (fmt, " -n ".join(q)), res, out, [whole[i] for i in ords])
             unaligned = any(not any(n in t for t in trav) for n in qs)
             revisit = False
